@@ -56,6 +56,11 @@ func (v *Vue) evalInclude(ctx VueContext, node *html.Node, vars map[string]any, 
 		return nil, fmt.Errorf("error parsing %s (included from %s): %w", name, ctx.FormatTemplateChain(), err)
 	}
 
+	// Component shorthand tags work inside components as they do in pages
+	if err := v.resolveComponentTags(compDom); err != nil {
+		return nil, err
+	}
+
 	// Give every v-once element of the component an id that is the same for
 	// each include of this file, so repeated includes emit it once per render
 	// while different elements never share an id.
